@@ -127,7 +127,7 @@ type c05Case struct {
 	Finality  int // 0 latest, 1 safe, 2 finalized
 	FinType   int
 	Script    []c05Step
-	FaultKind []int // per fault: 0 FilterLogs error, 1 HeaderByNumber(number) error, 2 HeaderByNumber(number) NotFound, 3 tip poll error, 4 ProcessBlock error
+	FaultKind []int // per fault: 0 FilterLogs error, 1 HeaderByNumber(number) error, 2 HeaderByNumber(number) NotFound, 3 tip poll error, 4 ProcessBlock error, 5 / 6 HeaderByNumber(number) / FilterLogs fails with an RPC timeout (wraps context.DeadlineExceeded)
 	FaultAt   []int // ordinal of the call of that kind
 	RestartAt int   // -1, or restart when the n-th RPC is made
 }
@@ -178,7 +178,7 @@ func c05Gen(ch choose.Chooser, enum bool, maxBlocks int) c05Case {
 	}
 	nf := choose.Pick(ch, []int{0, 0, 1, 2, 3}, "nFaults")
 	for i := 0; i < nf; i++ {
-		c.FaultKind = append(c.FaultKind, ch.Int(0, 4, "faultKind"))
+		c.FaultKind = append(c.FaultKind, ch.Int(0, 6, "faultKind"))
 		c.FaultAt = append(c.FaultAt, ch.Int(0, 12, "faultAt"))
 	}
 	c.RestartAt = -1
@@ -282,11 +282,15 @@ func c05Run(c c05Case) (res c05Result, err error) {
 		if kind >= 0 {
 			counts[kind]++
 			for i, fk := range c.FaultKind {
-				hit := fk == kind || (fk == 2 && kind == 1)
+				hit := fk == kind || (fk == 2 && kind == 1) || (fk == 5 && kind == 1) || (fk == 6 && kind == 0)
 				if !faultUsed[i] && hit && counts[kind] > c.FaultAt[i] {
 					faultUsed[i] = true
-					if fk == 2 {
+					switch fk {
+					case 2:
 						return ethereum.NotFound
+					case 5, 6:
+						// the RPC client's own per-request timeout: the node's context is still alive
+						return fmt.Errorf("injected rpc timeout: %w", context.DeadlineExceeded)
 					}
 					return errors.New("injected transient rpc failure")
 				}
